@@ -414,8 +414,9 @@ def C15_symbols_Statement : Prop :=
     name something which nothing emitted refers to and the unit does not define. -/
 def InScope (ds : List Decl) : Bool := symbolsScope ds
 
+omit [Rules] in
 /-- with all four repairs the scope is every valid unit -/
-theorem inScope_repaired (ds : List Decl) : @InScope Rules.repaired ds = valid ds := by
+theorem C15_scope_repaired (ds : List Decl) : @InScope Rules.repaired ds = valid ds := by
   have h1 : @Rules.flagsFollow Rules.repaired = true := rfl
   have h2 : @Rules.ownedData Rules.repaired = true := rfl
   have h3 : @Rules.compositeFromDecls Rules.repaired = true := rfl
@@ -459,12 +460,13 @@ theorem C15_symbols_partial : ∀ (fcommon : Bool) (ds : List Decl), InScope ds 
   intro fcommon ds hin
   exact symbols_partial_lemma fcommon hin
 
+omit [Rules] in
 /-- **C15_symbols for the repaired code (full statement, no region).**  With the four candidate repairs in the code
     (`Rules.repaired`: extern inherits linkage, flags follow redeclarations, composite array type, data owned by their
     function) the model's symbol table equals `Spec.symbols` for EVERY valid declaration sequence. -/
 theorem C15_symbols_repaired : @C15_symbols_Statement Rules.repaired := by
   intro fcommon ds hv
-  exact @C15_symbols_partial Rules.repaired fcommon ds (by rw [inScope_repaired]; exact hv)
+  exact @C15_symbols_partial Rules.repaired fcommon ds (by rw [C15_scope_repaired]; exact hv)
 
 /-- non-vacuity: a unit with redeclarations (`static int s(void); static int s(void){..}`), a static-inline cycle
     reached through a file-scope initializer, a dead static inline, a block-scope `extern` used after its
@@ -521,10 +523,11 @@ theorem C15_symbols_exact_partial : ∀ (fcommon : Bool) (ds : List Decl), InSco
   intro fcommon ds hin
   exact symbols_perm_lemma fcommon hin
 
+omit [Rules] in
 /-- **C15_symbols with multiplicities for the repaired code (full statement, no region).** -/
 theorem C15_symbols_exact_repaired : @C15_symbols_exact_Statement Rules.repaired := by
   intro fcommon ds hv
-  exact @C15_symbols_exact_partial Rules.repaired fcommon ds (by rw [inScope_repaired]; exact hv)
+  exact @C15_symbols_exact_partial Rules.repaired fcommon ds (by rw [C15_scope_repaired]; exact hv)
 
 /-- non-vacuity: see the examples after `C15_symbols_partial` (same hypotheses); the two tables of `mixedUnit`
     have ten entries each -/
